@@ -14,6 +14,13 @@ mod lemmas {
         kani::assume(x.is_finite());
         assert!((x - x).abs() <= 1e-12);
     }
+    /// finite x: x == x
+    #[kani::proof]
+    fn finite_eq_refl() {
+        let x: f64 = kani::any();
+        kani::assume(x.is_finite());
+        assert!(x == x);
+    }
     /// 1.0 == 1.0, 0.0 == 0.0, 1.0 != 0.0
     #[kani::proof]
     fn eq_refl_literals() {
